@@ -159,7 +159,9 @@ class SyncedList(SyncedCollection, MutableSequence):
                     self._data[i] = self._from_base(data[i], parent=self)
 
                 if len(self._data) > len(data):
-                    self._data = self._data[: len(data)]
+                    # Truncate in place: buffers may hold a reference to this
+                    # container.
+                    del self._data[len(data) :]
                 else:
                     new_data = data[len(self) :]
                     if not _validate:
@@ -273,7 +275,8 @@ class SyncedList(SyncedCollection, MutableSequence):
         # them in the same order as every other writer.
         self._load_and_save._acquire_locks()
         try:
-            self._data = []
+            # Clear in place: buffers may hold a reference to this container.
+            self._data.clear()
             self._save()
         finally:
             self._load_and_save._release_locks()
